@@ -99,6 +99,10 @@ func routeInputs() []inputStmt {
 		// the destination is a variable that already is a pointer
 		{"form-json-pointer-var", "pl3 := new(Payload)\n\t_ = FormValueJSON(c, \"payload3\", pl3)", func(r *Route) { r.JSONField = &RouteParam{"payload3", "Payload"} }},
 		{"form-json-pointer-slice", "var ids3 *[]int64\n\t_ = FormValueJSON(c, \"ids3\", ids3)", func(r *Route) { r.JSONField = &RouteParam{"ids3", "[]int64"} }},
+		// Bind called on a value that is not spelled as an echo.Context: a custom context obtained by
+		// assertion, and a pointer to the context variable
+		{"bind-on-custom-context", "var inC In\n\tcc := c.(interface {\n\t\techo.Context\n\t\tBind(interface{}) error\n\t})\n\t_ = cc.Bind(&inC)", func(r *Route) { r.Input = "In" }},
+		{"bind-on-context-pointer", "var inP In\n\tpc := &c\n\t_ = (*pc).Bind(&inP)", func(r *Route) { r.Input = "In" }},
 	}
 }
 
